@@ -160,6 +160,8 @@ def check(ix, rep):
         SS.check_output(ix, cold, kf, opn, slot_prefix='dense-offline:')
         for e in cold.errors:
             rep.error(e)
+        if cold.errors:
+            continue        # the kernel is not in a form the reader interprets: what it extracted is partial, no verdict on the grid clause
         segs = [f_ for f_ in forms if f_['kind'] == 'segment']
         if not segs:
             raise AnalysisError('%s: no influence interval extracted' % kf.where)
